@@ -526,7 +526,12 @@ class InventoryWorkingTree(WorkingTree, MutableInventoryTree):
                             else:
                                 message = backup(f)
                         else:
-                            if f in files_to_backup:
+                            # An unversioned file is unknown whatever the
+                            # comparison with the basis says (it is silent
+                            # about an unversioned file at a path that is
+                            # still versioned in the basis): never delete it
+                            # without force.
+                            if f in files_to_backup or (not fid and not force):
                                 message = backup(f)
                             else:
                                 osutils.delete_any(abs_path)
